@@ -360,6 +360,22 @@ def check_no_memoised_coroutines(ctx: Ctx, rep: Report) -> None:
             continue
         is_gen = any(isinstance(n, (ast.Yield, ast.YieldFrom)) for n in own_nodes(fn.node))
         if not (fn.is_async or is_gen):
+            memo = memoising_decorators(fn.node)
+            if memo:
+                # a memoised factory hands the same *object* to every caller: a security model (its timing table), a
+                # message-processing model (its discovery cache), any instance with state becomes shared by all clients
+                shared = []
+                if ctx.r.plugin_namespace(fn) is not None and not ctx.r.factory_returns_module(fn):
+                    shared.append("the plug-in instance it creates")
+                fdefs = ctx.defs(fn)
+                for r_ in [n for n in own_nodes(fn.node) if isinstance(n, ast.Return) and n.value is not None]:
+                    val = fdefs.expand(r_.value)
+                    if isinstance(val, ast.Call):
+                        for callee in ctx.r.callees(fn, val):
+                            kls = callee if isinstance(callee, ClassInfo) else None
+                            if kls is not None and not kls.module.external and (any(isinstance(n, ast.Assign) and any(isinstance(t, ast.Attribute) and norm(t.value) == "self" for t in n.targets) for m in kls.methods.values() for n in own_nodes(m.node)) or kls.attrs or kls.ann):
+                                shared.append(f"an instance of {kls.name}")
+                rep.check(not shared, "C14-R5", fn.site(), f"{fn.qualname} is memoised ({memo[0]}): what it returns carries no per-client state", f"every caller gets the same object: {', '.join(shared)}", key=f"{fn.key}|memoised-factory")
             continue
         memo = memoising_decorators(fn.node)
         rep.check(not memo, "C14-R5", fn.site(), f"{fn.qualname} ({'coroutine function' if fn.is_async else 'generator'}) is not memoised", f"decorated with {memo}", key=f"{fn.key}|memoised-coroutine")
